@@ -365,7 +365,10 @@ def _run_stacking(c, sim):
     learners = [m for m in sorted(MODELS) if method in MODELS[m][1] and m not in ("kmeans",) + TRANSFER_ONLY + LEARNER_ONLY]
     transformers = ["scaler", "pca"]
     nm = ch.integer("w", 1, 4, "n-members")
+    if ch.boolean("w", 0.12, "many-members"):
+        nm = ch.integer("w", 11, 13, "n-members-many")  # member indices with two digits
     members = []
+    overrides = {}
     for i in range(nm):
         kind = ch.weighted("w", [("learner", 4), ("wrapped", 2), ("transformer", 2)], "member-kind")
         if kind == "transformer":
@@ -389,9 +392,26 @@ def _run_stacking(c, sim):
     fitted = False
     cur = data
     for k in range(ch.integer("w", 2, 6, "nops")):
-        op = ch.choice("w", ["fit", "transform", "transform", "clone", "fit-fail"], "op")
+        op = ch.choice("w", ["fit", "transform", "transform", "clone", "fit-fail", "set-nested"], "op")
         if len(c.scenario["ops"]) < 16:
             c.scenario["ops"].append(op)
+        if op == "set-nested":
+            # a nested parameter of one member, addressed by its index
+            TUNABLE = {"logreg": ("C", [0.05, 20.0]), "logreg-C": ("C", [0.01, 50.0]), "treeclf": ("max_depth", [1, 3]), "treereg": ("max_depth", [1, 3]), "linreg": ("fit_intercept", [False])}
+            cand = [j for j, (kind, name) in enumerate(members) if kind != "transformer" and name in TUNABLE]
+            if not cand:
+                continue
+            j = cand[-1] if ch.boolean("w", 0.6, "last-member") else cand[ch.draw("w", len(cand), "member")]
+            pname, vals = TUNABLE[members[j][1]]
+            val = vals[ch.draw("w", len(vals), "nested-value")]
+            ok, r = U.sut(c, "set_params(models_%d__model__%s)" % (j, pname), st.set_params, **{"models_%d__model__%s" % (j, pname): val})
+            if not ok:
+                sim.viol("set_params-raised", ("stacking", "nested", type(r).__name__), "set_params(models_%d__model__%s=%r) raised %s" % (j, pname, val, U.short_exc(r)))
+                return
+            overrides.setdefault(j, {})[pname] = val
+            fitted = False
+            c.probe("nested_parameter_of_member_%s" % ("ge_10" if j >= 10 else "lt_10"))
+            continue
         if op in ("fit", "fit-fail"):
             cur = data if ch.boolean("w", 0.6, "which") else data2
             kw = {"sample_weight": cur["w"]} if cur["w"] is not None and not any(n == "pca" for _, n in members) else {}
@@ -423,9 +443,11 @@ def _run_stacking(c, sim):
                 sim.viol("transform-raised", ("stacking", type(out).__name__, U.where_raised(out)), "transform raised %s" % U.short_exc(out))
                 continue
             cols = []
-            for kind, name in members:
+            for jm, (kind, name) in enumerate(members):
                 mth = "transform" if kind == "transformer" else method
                 ref = MODELS[name][0]()
+                if jm in overrides:
+                    ref.set_params(**overrides[jm])
                 sim.env()
                 kw = {"sample_weight": cur["w"]} if cur["w"] is not None and not any(n == "pca" for _, n in members) else {}
                 ref.fit(cur["X"], y=cur["y"], **kw)
@@ -484,9 +506,28 @@ def _run_transfer(c, sim):
     follow_original = False  # copy_estimator=False and the user retrained the shared object
     trained_from = None  # state of the wrapped estimator just before the last successful fit of the transfer
     for k in range(ch.integer("w", 2, 8, "nops")):
-        op = ch.choice("w", ["fit", "transform", "fit", "fit-fail", "transform", "retrain-original", "set-estimator"], "op")
+        op = ch.choice("w", ["fit", "transform", "fit", "fit-fail", "transform", "retrain-original", "set-estimator", "persist"], "op")
         if len(c.scenario["ops"]) < 16:
             c.scenario["ops"].append(op)
+        if op == "persist":
+            # the fitted transfer is pickled or deep-copied and the restored
+            # object is used from now on: it is the object it was copied from
+            if not fitted or not copy_estimator:
+                continue  # a reference to the user's estimator is not a snapshot
+            how = ch.choice("w", ["pickle", "deepcopy"], "persist-how")
+            try:
+                tt = pickle.loads(pickle.dumps(tt)) if how == "pickle" else __import__("copy").deepcopy(tt)
+            except Exception as e:  # noqa: BLE001
+                sim.viol("persist-raised", ("transfer", how, type(e).__name__), "%s of a fitted TransferTransformer raised %s" % (how, U.short_exc(e)))
+                return
+            c.probe("transfer_persisted_" + how)
+            # the restored transfer holds its own copy of the estimator given
+            # as parameter: that copy is "the original" from now on
+            original = tt.estimator
+            if _digest(original, probe, all_methods)[1:] != dig0[1:]:
+                sim.viol("persist", ("transfer", how, "estimator-parameter"), "the estimator held by a %s copy of the transfer does not predict like the one held by the object it was copied from" % how)
+            dig0 = _digest(original, probe, all_methods)
+            continue
         if op == "retrain-original":
             # the user retrains (or replaces) the estimator they own between two
             # fits of the transfer: the next fit must pick up its current state
